@@ -190,6 +190,22 @@ pub mod rt {
             format!("{}{}", STRS[(j + 3) % 8], j / 8)
         }
     }
+    pub fn arg_vec_u32(j: usize) -> Vec<u32> {
+        vec![j as u32; 1 + j % 3]
+    }
+    pub fn arg_tuple(j: usize) -> (u32, String) {
+        (arg_u32(j), arg_string(j))
+    }
+    pub fn arg_opt_u32(j: usize) -> Option<u32> {
+        if j % 3 == 0 {
+            None
+        } else {
+            Some(j as u32)
+        }
+    }
+    pub fn arg_f64(j: usize) -> f64 {
+        j as f64 * 0.5 - 1.0
+    }
     pub fn arg_opt_string(j: usize) -> Option<String> {
         if j % 3 == 0 {
             None
